@@ -30,13 +30,13 @@ func TestBounded_schemaOrder(t *testing.T) {
 	if os.Getenv("VERIF_TIER") == "thorough" {
 		n = 6000
 	}
-	pats := []string{`^a\.b$`, `^a\.`, `a`, `\.b$`, `^x\.y\.z$`, `;dc=eu`, `^a\.b;`, `.*`, `^servers\.`, `cpu$`}
+	pats := []string{`^a\.b$`, `^a\.`, `a`, `\.b$`, `^x\.y\.z$`, `;dc=eu`, `^a\.b;`, `.*`, `^servers\.`, `cpu$`, `;dc=eu;h=1$`, `^a\.b;dc=(eu|us)$`, `=`}
 	rets := []struct {
 		s   string
 		sec int
 	}{{"10s:1d", 10}, {"60:1440", 60}, {"1m:7d,10m:1y", 60}, {"5s:6h,1m:7d", 5}, {"3600:24", 3600}, {"1h:1y", 3600}}
 	prios := []string{"", "0", "1", "2", "-1"}
-	names := []string{"a.b", "a.b.c", "a.b;dc=eu", "x.y.z", "servers.web.cpu", "cpu", "b.a", "a", "servers.x;dc=eu;h=1", "z", "a.bb", "xa.b"}
+	names := []string{"a.b", "a.b.c", "a.b;dc=eu", "x.y.z", "servers.web.cpu", "cpu", "b.a", "a", "servers.x;dc=eu;h=1", "z", "a.bb", "xa.b", "a.b;dc=us", "x;dc", "servers.x;dc=eu;h=2"}
 	dir := t.TempDir()
 	checked := 0
 	for it := 0; it < n; it++ {
